@@ -218,6 +218,9 @@ def run(ctx):
         # exhaustive per scenario up to a budget of schedules (the trace re-logs the shared prefix of every run)
         conc_phase(ctx, "impl-t3", exe, three, props, maxruns=15000)
         conc_phase(ctx, "rand-t4", exe, FOUR, props, maxruns=-40000)
+    # a long life of one allocation (7*10^4 locks that succeed, as many that fail) on one thread: nobody waits forever
+    from . import p_big
+    p_big.big_phase(ctx, ["refs:70000"])
     ctx.cov["exhaustive"] = not ctx.violations and not ctx.cov["spec_drift"]
     ctx.assumptions += [
         "all synchronisation in memory.c is seq_cst (C11 defaults), so sequentially consistent interleavings at atomic-step granularity are all behaviours; a data race exists iff some interleaving makes two conflicting plain accesses adjacent, which the scheduler's pending-operation check observes",
